@@ -13,7 +13,8 @@ def lop(name, a=0, b=0, dl=0, **kw):
 
 
 def init_line(spec, conf):
-    progs = ";".join(",".join("%s.%d.%d.%d" % (o["op"], o.get("a", o.get("d", 0)), o.get("b", 0), o.get("dl", 0)) for o in p) if p else "-" for p in conf["progs"])
+    hd = lambda d: 0 if d == 9999 else d       # the harness writes "no deadline" as 0
+    progs = ";".join(",".join("%s.%d.%d.%d.%d" % (o["op"], o.get("a", o.get("d", 0)), o.get("b", 0), hd(o.get("dl", 0)), o.get("x", 0)) for o in p) if p else "-" for p in conf["progs"])
     extra = " ".join("%s=%s" % (k, v) for k, v in conf.get("init", {}).items())
     return "spec=%s %s progs=%s" % (spec, extra, progs)
 
